@@ -12,7 +12,7 @@ source-level interpretation from a state where every register holds a distinct s
 from __future__ import annotations
 
 import itertools
-from typing import Any, Dict, List, Optional, Sequence, Tuple
+from typing import Any, Callable, Dict, List, Optional, Sequence, Tuple
 
 from mc import refvm
 from mc.report import add_sample, add_violation, count, new_part
@@ -20,7 +20,7 @@ from mc.report import add_sample, add_violation, count, new_part
 LEVEL = "exploration"
 RULE = ("all source programs of <= N instructions over the instance menu x all label placements/references x {text, IR} entry "
         "form; macro programs: every ordered subset of definitions over keys {i,q,q0} x uses; register-pressure programs naming "
-        "13..16 registers x final instruction needing 1..4 scratch registers; oracle: source-level interpretation == assembled "
+        "13..16 registers x final instruction needing 1..4 scratch registers; every {register, literal} combination of the operand positions of every instruction shape (alone, after and before another literal-carrying instruction); oracle: source-level interpretation == assembled "
         "program on the reference VM (named registers, arrays, shared memory, allocation, fault class and source-pc trace) and "
         "structural re-derivation; distinct = distinct (form, program); non-trivial = program with at least one literal, label "
         "or macro to resolve")
@@ -354,8 +354,19 @@ def check_program(items, form: str, part, defines=(), expanded_items=None, brack
     except Exception as exc:
         add_violation(part, f"assembler-raises/{form}/{family}", f"assembler raised {type(exc).__name__}: {str(exc)[:120]}", case)
         return
+    # the assembled subroutine is judged in the form the controller receives: encoded and decoded again (an operand left
+    # in a form the instruction cannot hold - a bare integer where a register is required - does not survive this)
     try:
-        asm = refvm.program_from_subroutine(sub)
+        from netqasm.lang.parsing.binary import deserialize
+        wire = deserialize(bytes(sub))
+        if len(wire.instructions) != len(sub.instructions):
+            raise ValueError(f"{len(sub.instructions)} instructions encode to {len(wire.instructions)}")
+    except Exception as exc:
+        add_violation(part, f"assembled-not-encodable/{form}/{family}", f"the assembled subroutine cannot be encoded for the controller: "
+                      f"{type(exc).__name__}: {str(exc)[:120]}", case, {"assembled": [str(i) for i in sub.instructions]})
+        return
+    try:
+        asm = refvm.program_from_subroutine(wire)
     except Exception as exc:
         add_violation(part, f"assembled-not-executable/{form}", f"assembled subroutine has operands that are not concrete: {exc}", case)
         return
@@ -570,12 +581,59 @@ def shard_immediates(shard):
     return part
 
 
+# every register-or-literal operand position of every instruction shape, in every combination: the curated menus above hold a
+# few instances per shape, this family closes the product {register, literal}^k per shape (k <= 3), alone and after / before
+# another literal-carrying instruction, with a label in front
+MIX_TEMPLATES: List[Tuple[str, Callable[..., List[Any]], List[Tuple[Any, Any]]]] = [
+    ("add", lambda a, b: [R(15), a, b], [(R(0), 2), (R(1), 1)]),
+    ("sub", lambda a, b: [R(0), a, b], [(R(15), 5), (R(1), 1)]),
+    ("addm", lambda a, b, m: [R(0), a, b, m], [(R(0), 3), (R(1), 1), (R(15), 2)]),
+    ("subm", lambda a, b, m: [R(1), a, b, m], [(R(15), 3), (R(0), 1), (C(0), 2)]),
+    ("store", lambda v, i: [v, E(0, i)], [(R(15), 7), (R(1), 1)]),
+    ("load", lambda i: [R(15), E(0, i)], [(R(1), 2)]),
+    ("undef", lambda i: [E(0, i)], [(R(1), 2)]),
+    ("array", lambda n: [n, AD(2)], [(R(15), 3)]),
+    ("qalloc", lambda q: [q], [(Q(0), 1)]),
+    ("wait_all", lambda a, b: [SL(0, a, b)], [(R(0), 0), (R(15), 2)]),
+    ("wait_any", lambda a, b: [SL(1, a, b)], [(R(0), 0), (R(15), 2)]),
+    ("wait_all", lambda a, b: [SL(1, a, b)], [(R(1), 1), (R(15), 2)]),
+    ("wait_single", lambda i: [E(1, i)], [(R(1), 1)]),
+    ("wait_single", lambda i: [E(1, i)], [(R(0), 0)]),
+    ("bez", lambda a: [a, L("A")], [(R(0), 0)]),
+    ("bnz", lambda a: [a, L("A")], [(R(1), 1)]),
+    ("beq", lambda a, b: [a, b, L("A")], [(R(1), 1), (R(15), 2)]),
+    ("bne", lambda a, b: [a, b, L("A")], [(R(1), 1), (R(15), 1)]),
+    ("blt", lambda a, b: [a, b, L("A")], [(R(1), 1), (R(15), 2)]),
+    ("bge", lambda a, b: [a, b, L("A")], [(R(0), 0), (R(15), 2)]),
+]
+
+
+def shard_mix(shard):
+    _, ti = shard
+    part = new_part()
+    mn, build, slots = MIX_TEMPLATES[ti]
+    neighbour = ("store", [5, E(1, 2)])
+    for choice in itertools.product((0, 1), repeat=len(slots)):
+        instr = (mn, build(*[slots[k][c] for k, c in enumerate(choice)]))
+        for items in ([instr, ("label:", "A")], [("label:", "A"), neighbour, instr], [instr, neighbour, ("label:", "A")]):
+            for form in ("text", "proto"):
+                part["evals"] += 1
+                part["distinct"] += 1 if any(choice) else 0
+                check_program(items, form, part, family="operand-mix")
+        count(part, "mix-combinations")
+        if any(choice) and not all(choice):
+            count(part, "mix-mixed")
+    return part
+
+
 def _dispatch(shard):
-    return {"grammar": shard_grammar, "macros": shard_macros, "pressure": shard_pressure, "imm": shard_immediates}[shard[0]](shard)
+    return {"grammar": shard_grammar, "macros": shard_macros, "pressure": shard_pressure, "imm": shard_immediates,
+            "mix": shard_mix}[shard[0]](shard)
 
 
 def run(ctx):
     shards: List[Any] = [("macros",), ("imm",)] + [("pressure", k) for k in range(11, 17)]
+    shards += [("mix", i) for i in range(len(MIX_TEMPLATES))]
     plan = [(1, False), (2, False), (3, True)] if ctx.tier == "quick" else [(1, False), (2, False), (3, False), (4, True)]
     for n, reduced in plan:
         menu = (REDUCED_MENU + REDUCED_BRANCH) if reduced else (FULL_MENU + BRANCH_MENU)
@@ -586,6 +644,8 @@ def run(ctx):
     ctx.require("macro-programs", 50)
     ctx.require("macro-prefix-keys", 10)
     ctx.require("pressure-programs", 40)
+    ctx.require("mix-combinations", sum(2 ** len(t[2]) for t in MIX_TEMPLATES))
+    ctx.require("mix-mixed", 20)
     ctx.require("bracket-programs", 3)
     ctx.require("dyn/done", 1000)
     ctx.require("dyn/fault", 10)
